@@ -734,3 +734,4 @@ RENAME_FUNCS = [(F, 'pitches_to_chord_symbol'), (F, '_degrees_to_modifications')
 EXPLANATION += (' Location-independent additions: VOCAB/compound-boundary, VOCAB/addless-compound-only, VOCAB/degree-identity, DUP/groupby-sorted, PITCH/one-pitch-per-degree; TAB/quality also reads a table form.')
 EXPLANATION += (' Round 6: ' + 'PITFALL/falsy-zero over every function of chord_symbols_lib; PITCHCLASS/reduced (shared with C09); SEVENTH/reader is read path-wise (stored value minus written alteration on the paths of one degree).')
 EXPLANATION += (' Round 7: ' + 'VOCAB/modifications-by-pattern; VOCAB/accidentals-measured.')
+EXPLANATION += (' Rounds 9-10: ' + 'RX/root-takes-its-accidentals (rx.shadowed_alternatives on the regex AST); PITFALL/misaligned-index.')
